@@ -471,10 +471,10 @@ type rawLine struct {
 var clauseKeywords = map[string]bool{
 	"requires": true, "ensures": true, "assigns": true, "tags": true, "loop": true, "invariant": true,
 	"decreases": true, "ghost": true, "pure": true, "panics": true, "nosafety": true, "doc": true, "use": true, "by": true,
-	"assert": true, "unroll": true, "trigger": true,
+	"assert": true, "unroll": true, "trigger": true, "establishes": true, "split": true, "implements": true,
 }
 
-var topKeywords = map[string]bool{"func": true, "trusted": true, "spec": true, "axiom": true, "lemma": true, "ghostfield": true, "sentinel": true, "immutable": true}
+var topKeywords = map[string]bool{"macro": true, "func": true, "trusted": true, "spec": true, "axiom": true, "lemma": true, "ghostfield": true, "sentinel": true, "immutable": true, "consttable": true, "globalinv": true, "onlycalledfrom": true, "constfield": true}
 
 // ParseFile reads all //@ lines of a file.
 func ParseFile(path string) (*File, error) {
@@ -547,11 +547,12 @@ func Parse(path, src string) (*File, error) {
 			fs.Unroll = map[int]int{}
 			f.Funcs = append(f.Funcs, fs)
 			cur, curLoop, curLemma, curAxiom = fs, nil, nil, nil
-		case "spec":
+		case "spec", "macro":
 			sf, err := parseSpecFn(rest)
 			if err != nil {
 				return nil, fail(l, err)
 			}
+			sf.Macro = first == "macro"
 			sf.File, sf.Line = path, l.line
 			f.SpecFns = append(f.SpecFns, sf)
 			cur, curLoop, curLemma, curAxiom = nil, nil, nil, nil
@@ -583,6 +584,10 @@ func Parse(path, src string) (*File, error) {
 				g.Global = true
 				parts = parts[1:]
 			}
+			if len(parts) == 4 && parts[2] == "index" {
+				g.Index = parts[3]
+				parts = parts[:2]
+			}
 			if len(parts) == 4 && parts[2] == "guard" {
 				g.Guard = parts[3]
 				parts = parts[:2]
@@ -603,6 +608,32 @@ func Parse(path, src string) (*File, error) {
 				f.Immutable = append(f.Immutable, strings.TrimSpace(s))
 			}
 			cur = nil
+		case "constfield":
+			f.ConstFields = append(f.ConstFields, splitList(rest)...)
+			cur = nil
+		case "onlycalledfrom":
+			parts := strings.Fields(rest)
+			if len(parts) != 2 {
+				return nil, fail(l, fmt.Errorf("onlycalledfrom <callee> <caller>"))
+			}
+			f.OnlyCalledFrom = append(f.OnlyCalledFrom, [2]string{parts[0], parts[1]})
+			cur = nil
+		case "consttable":
+			for _, s := range strings.Split(rest, ",") {
+				f.ConstTables = append(f.ConstTables, strings.TrimSpace(s))
+			}
+			cur = nil
+		case "globalinv":
+			i := strings.Index(rest, ":")
+			if i < 0 {
+				return nil, fail(l, fmt.Errorf("globalinv: expected name ':' expr"))
+			}
+			e, err := ParseExpr(rest[i+1:])
+			if err != nil {
+				return nil, fail(l, err)
+			}
+			f.GlobalInvs = append(f.GlobalInvs, &GlobalInv{Name: strings.TrimSpace(rest[:i]), E: e, Text: strings.TrimSpace(rest[i+1:]), File: path, Line: l.line})
+			cur, curLoop, curLemma, curAxiom = nil, nil, nil, nil
 		case "doc":
 			d := strings.Trim(rest, ": ")
 			if cur != nil {
@@ -706,6 +737,18 @@ func Parse(path, src string) (*File, error) {
 					cur.Assigns = append(cur.Assigns, es...)
 					cur.HasAssigns = true
 				}
+			case first == "implements":
+				cur.Implements = append(cur.Implements, splitList(rest)...)
+			case first == "split":
+				for _, part := range splitTop(rest) {
+					e, err := ParseExpr(part)
+					if err != nil {
+						return nil, fail(l, err)
+					}
+					cur.Split = append(cur.Split, e)
+				}
+			case first == "establishes":
+				cur.Establishes = append(cur.Establishes, splitList(rest)...)
 			case first == "pure":
 				cur.Pure = true
 			case first == "panics":
